@@ -98,6 +98,45 @@ def _level_form(level: Term):
     return None
 
 
+def _level_form_on_path(level: Term, p: Path):
+    """_level_form, plus the idiom ceil(x) = floor(x) + [floor(x) < x] spelled with a branch: on a path
+    where floor(x) was compared with x, floor(x) is also ceil(x) when they were found equal ('both'),
+    and floor(x) + 1 is ceil(x) when floor(x) was found smaller"""
+    lv = strip_ver(level)
+    plus_one = False
+    if lv[0] == "bin" and lv[1] == "+" and ("const", 1) in (lv[2], lv[3]):
+        lv = lv[3] if lv[2] == ("const", 1) else lv[2]
+        plus_one = True
+    form = _level_form(lv)
+    if form is None or form[0] != "floor":
+        return None if plus_one else form
+    fl, q = key(strip_ver(lv)), key(form[1])
+    rel = None  # 'eq' | 'lt'
+    for c, pol, _ in p.conds:
+        c = strip_ver(c)
+        if c[0] != "cmp":
+            continue
+        a, b = key(strip_ver(c[2])), key(strip_ver(c[3]))
+        if {a, b} != {fl, q}:
+            continue
+        op = c[1]
+        if op in ("==", "!="):
+            rel = "eq" if (op == "==") == pol else "lt"
+        elif op in ("<", ">"):
+            strictly_below = (a == fl) == (op == "<")  # floor < q
+            if strictly_below:
+                rel = "lt" if pol else "eq"
+        elif op in ("<=", ">="):
+            at_least = (a == fl) == (op == ">=")  # floor >= q
+            if at_least:
+                rel = "eq" if pol else "lt"
+    if plus_one:
+        return ("ceil", form[1]) if rel == "lt" else None
+    if rel == "eq":
+        return ("both", form[1])
+    return form
+
+
 @rule("C19.R1", "the price of an order is rewritten exactly when it is a limit price that is not a multiple of the tick size", "T3 control dependence", floor=2)
 def r1(ctx: Ctx) -> None:
     f = ctx.func(ADD)
@@ -153,11 +192,11 @@ def r2(ctx: Ctx) -> None:
         quotient = ("bin", "/", PRICE, TICK)
         want_fn = "math.floor" if buy else "math.ceil"
         seen.add(buy)
-        form = _level_form(level) if level is not None else None
+        form = _level_form_on_path(level, p) if level is not None else None
         label = f"{'buy' if buy else 'sell'}: new price = {'floor' if buy else 'ceil'}(price / tick_size) * tick_size"
         expd = f"{want_fn}(order.price / self.tick_size) * self.tick_size"
         if form is not None and form[1] == quotient:
-            ctx.check("math." + form[0] == want_fn, f, st[0].node, label, expd, short(v))
+            ctx.check("math." + form[0] == want_fn or form[0] == "both", f, st[0].node, label, expd, short(v))
         elif level is not None and any(s_[0] == "call" and key(s_[1]) in ("round", "int", "math.trunc") for s_ in subterms(level)):
             ctx.violated(f, st[0].node, label, expd, short(v))
         elif form is not None and not (PRICE in list(subterms(form[1])) and TICK in list(subterms(form[1]))):
@@ -191,9 +230,9 @@ def r2(ctx: Ctx) -> None:
         r = strip_ver(p.exit[1]) if p.exit[0] == "return" else NONE
         if p.exit[0] == "raise":
             continue
-        form = _level_form(r)
+        form = _level_form_on_path(r, p)
         if len(side) == 1 and form is not None:
-            ctx.check(form[0] == ("floor" if side[0] else "ceil"), g, g.node, "convert_to_tick_level: buy -> lower, sell -> upper", "floor for buys, ceil for sells", f"is_buy={side} -> {short(r)}")
+            ctx.check(form[0] in (("floor" if side[0] else "ceil"), "both"), g, g.node, "convert_to_tick_level: buy -> lower, sell -> upper", "floor for buys, ceil for sells", f"is_buy={side} -> {short(r)}")
         elif len(side) != 1:
             ctx.violated(g, g.node, "convert_to_tick_level: buy -> lower, sell -> upper", "one decision on is_buy", f"is_buy={side} -> {short(r)}")
         else:
